@@ -85,7 +85,7 @@ PROPS['C16'] = dict(
 ARMS_NOTE = 'The arms of preprocess_str are verified one by one (rule R-arm); the loop around them is verified in unit glue with the arm bodies outlined (A-glue): it establishes every arm precondition from one grammar invariant, keeps the text well formed, starts from the stated initial state and returns the accumulated text and table; an arm the contracts do not know makes the unit undecided. Callees carry contracts proved in other units (push/merge: pt; Locate::str: getstr; try_into fold: derive) or assumed on their real signature (preprocess_inner, resolve_text_macro_usage, identifier). Grammar invariants (each node has a contiguous leaf inside s, identifiers present) are preconditions.'
 PROPS['C04'] = dict(
     title='conditional compilation',
-    units=['arms', 'pphelp', 'glue', 'derive', 'getstr', 'prologue'],
+    units=['arms', 'pphelp', 'glue', 'derive', 'getstr', 'prologue', 'rtmu', 'kwstack'],
     shims=['A-glue', 'A-hashmap', 'A-str', 'A-node', 'A-pplex'],
     design='DESIGN.md 3/C04',
     technique='contract-based deductive verification (Verus) of the verbatim IfdefDirective / IfndefDirective arms against an IEEE 22.6 selection spec function, loop invariant over the `elsif chain',
@@ -95,7 +95,7 @@ PROPS['C04'] = dict(
 )
 PROPS['C05'] = dict(
     title='macro expansion',
-    units=['arms', 'depth', 'split', 'rtmu', 'pphelp', 'derive', 'getstr', 'prologue'],
+    units=['arms', 'depth', 'split', 'rtmu', 'pphelp', 'derive', 'getstr', 'prologue', 'kwstack'],
     shims=['A-glue', 'A-hashmap', 'A-str', 'A-arith', 'A-pplex'],
     design='DESIGN.md 3/C05',
     technique='contract-based deductive verification (Verus) of the verbatim TextMacroUsage arm and of the actual/formal binding block of resolve_text_macro_usage',
@@ -125,7 +125,7 @@ PROPS['C10'] = dict(
 )
 PROPS['C11'] = dict(
     title='define table',
-    units=['arms', 'prologue', 'rtmu', 'wrap', 'depth', 'glue', 'pphelp', 'derive', 'getstr'],
+    units=['arms', 'prologue', 'rtmu', 'wrap', 'depth', 'glue', 'pphelp', 'derive', 'getstr', 'kwstack'],
     shims=['A-glue', 'A-hashmap', 'A-str', 'A-pplex'],
     design='DESIGN.md 3/C11',
     technique='contract-based deductive verification (Verus) of the verbatim `define / `undef / `undefineall arms and of the table adoption at include and expansion',
